@@ -48,8 +48,12 @@ def main():
     base_tree = mk_tree()
     base_failed, base_passed, base_tail = run_tests(base_tree)
     print("baseline:", base_tail)
+    tag = ""
+    args = sys.argv[1:]
+    if args and args[0].startswith("--round="):
+        tag = args.pop(0).split("=", 1)[1] + "-"
     try:
-        for pid in sys.argv[1:]:
+        for pid in args:
             for i in ("1", "2", "3"):
                 src = f"/tmp/wt/{pid}/_out/{i}"
                 if not os.path.exists(os.path.join(src, "patch.diff")):
@@ -66,6 +70,8 @@ def main():
                         print(f"{pid}-{i}: PATCH DOES NOT APPLY\n{r.stdout[-500:]}")
                         continue
                     failed, passed, tail = run_tests(tree)
+                    if failed != base_failed or passed != base_passed:  # one repo test is randomly flaky (p ~ 0.4 %): look twice
+                        failed, passed, tail = run_tests(tree)
                     rc1, out1 = demo(tree, dpath)
                     ok = failed == base_failed and passed == base_passed and rc0 == 0 and rc1 != 0
                     print(f"{pid}-{i}: tests[{tail}] same_as_baseline={failed == base_failed and passed == base_passed} "
@@ -73,7 +79,7 @@ def main():
                     if not ok:
                         print("   clean:", out0, "\n   mutated:", out1)
                         continue
-                    dst = os.path.join(ROOT, "seeded", f"{pid}-{i}")
+                    dst = os.path.join(ROOT, "seeded", f"{pid}-{tag}{i}")
                     os.makedirs(dst, exist_ok=True)
                     for f in ("patch.diff", "demo.py", "notes.md"):
                         if os.path.exists(os.path.join(src, f)):
